@@ -146,12 +146,24 @@ def d_lead(d, i):
   return 1
 
 
+def _invert_exp(ctx, bw, k):
+  """Native replays: the exp stub's model value E stands for exp(bw/k); instantiate the bandwidth so that the real exp
+  takes exactly that value (bw = k*ln E), otherwise the model would not be a point of the real function."""
+  if ctx.mode == "concrete":
+    E = ctx.model.get("exp!1")
+    if E is not None and 0 < float(E) < 1:
+      return k * math.log(float(E))
+    return float(bw)
+  return bw
+
+
 def h_resonator(ctx, cfg):
   from audiolazy import resonator
   strat = cfg["strategy"]
   with Env(ctx) as E:
     th = E.angle("f")
     bw = ctx.real("bw", 0, cfg.get("bwmax"), lo_open=True)
+    bw = _invert_exp(ctx, bw, -2.0)
     filt = resonator[strat](th, bw)
     n, d = _terms(filt)
     # pole radius exp(-bandwidth/2): the exponentiated argument and a2 = R^2
@@ -230,6 +242,7 @@ def h_gammatone(ctx, cfg):
   with Env(ctx) as E:
     th = E.angle("f")
     bw = ctx.real("bw", 0, cfg.get("bwmax", 1), lo_open=True)
+    bw = _invert_exp(ctx, bw, -1.0)
     kw = {"eta": cfg["eta"]} if strat == "sampled" else {}
     filt = gammatone[strat](th, bw, **kw)
     ctx.prove(isinstance(filt, CascadeFilter), "gammatone-returns-a-cascade")
